@@ -139,9 +139,9 @@ Frame(k, r) ==
 \* calls whose w7 is a byte length of a value copied through an (offset, length) window
 LenCalls == {1, 2, 3, 5, 6}
 OffsetReg(k) == CASE k = 1 -> 8 [] k = 2 -> 10 [] k = 3 -> 11 [] k = 5 -> 9 [] OTHER -> 10
-\* calls for which a result in ErrCodes is an error (gas / checkpoint return a gas counter, expunge a pc,
-\* export / machine an index; write answers NONE for "no previous value")
-ErrSet(k) == CASE k \in {0, 17} -> {} [] k = 4 -> {FULL} [] OTHER -> ErrCodes
+\* calls for which a result in ErrCodes is an error (gas / checkpoint return a gas counter; expunge a 64-bit
+\* instruction counter, so only WHO is its error; write answers NONE for "no previous value")
+ErrSet(k) == CASE k \in {0, 17} -> {} [] k = 4 -> {FULL} [] k = 13 -> {WHO} [] OTHER -> ErrCodes
 CtxFields == {"self", "nextid", "t", "svcs", "xfers", "priv", "yield", "prov", "vk", "aq", "nkv", "machines", "nexp", "expd", "expoff"}
 SelfMayChange == {4, 18, 19, 20, 21, 23, 24}
 
